@@ -523,7 +523,9 @@ def run(ctx):
     accessor(ctx)
     level_source(ctx)
     import common as _common
-    _common.arm_effect_unconditional(ctx, 'V7', 'Layer', 'asefile::parse::ParseInfo::add_layer')     # every layer chunk counts, in any frame
+    _common.arm_effect_unconditional(ctx, 'V7', 'Layer', 'asefile::parse::ParseInfo::add_layer')
+    import C07 as _c07c
+    _c07c.chunk_count_selection(ctx, 'V7')       # .. also in a frame that only fills in the old 16-bit chunk count (seed C09-s)     # every layer chunk counts, in any frame
     # what a visible layer shows is the cel stored for it: a later cel chunk of a lower layer must not drop it (seed C09-p)
     render.cel_rows_grow_only(ctx, rule='V2')
     layer_cap(ctx)
